@@ -60,6 +60,13 @@ def conditions(cfg):
         "some-missing": [("rm", "d1", "a"), ("rm", "d1", "dir/t0"), ("rm", "d2", "c"), ("rm", "d1", "ln"), ("rmdir", "d1", "ed")],
         # an earlier scrub recorded bad blocks; the files they belong to got lost afterwards (-e / -b selections)
         "bad-then-missing": [("dmg-data", "d1", "a"), ("dmg-data", "d2", "c"), ("cmd", "scrub", "-p", "full"), ("rm", "d1", "a"), ("rm", "d2", "c")],
+        # recorded entries whose KIND changed on disk: an empty file became a symbolic link to a recorded non-empty file (and one to
+        # nowhere), a symbolic link became a file, an empty directory became a file
+        "empty-file-became-link": [("rm", "d2", "z0"), ("symlink", "d2", "z0", "a")],
+        "link-became-file": [("rm", "d1", "ln"), ("write", "d1", "ln", 50, 0)],
+        "emptydir-became-file": [("rmdir", "d1", "ed"), ("write", "d1", "ed", 60, 0)],
+        "file-became-dir": [("rm", "d1", "b"), ("write", "d1", "b/inside", 70, 0)],
+        "empty-file-dangling-link": [("rm", "d2", "z0"), ("symlink", "d2", "z0", "nowhere/new")],
         "partial-loss-parity": [("lose-parity", 0), ("write", "d2", "n2", 800, 0)],
         "interrupted": [("write", "d1", "n", 1500, 0), ("cmd", "sync", "--test-kill-after-sync"), ("rm", "d2", "c")],
     }
